@@ -18,6 +18,7 @@ import (
 	"strings"
 	"time"
 
+	"Havoc/pkg/agent"
 	"Havoc/pkg/handlers"
 	"Havoc/pkg/profile"
 
@@ -158,6 +159,19 @@ func (w *c12World) line(c *Ctx, in string) {
 		id := 0x00c12000 + w.next
 		key, iv := bytes.Repeat([]byte{0x11}, 32), bytes.Repeat([]byte{0x22}, 16)
 		bodyb := initPackage(id, id, key, iv, regInfo{Hostname: "h", Username: "u", Domain: "d", IP: "1.1.1.1", ProcName: "p"})
+		if len(parts) > 5 { // a body the agent protocol cannot use: the answer to an admitted request is the decoy then, with the profile's headers
+			switch parts[5] {
+			case "short":
+				bodyb = bodyb[:8]
+			case "magic":
+				bodyb = append([]byte{}, bodyb...)
+				bodyb[4], bodyb[5] = 0x12, 0x34
+			case "stranger": // a package of an agent that never registered
+				bodyb = demonRequest(id, key, iv, []dpkg{{cmd: agent.COMMAND_GET_JOB, nobody: true}})
+			case "empty":
+				bodyb = nil
+			}
+		}
 		rq, err := http.NewRequest(string(unhx(parts[2])), fmt.Sprintf("http://%s:%d", host, w.port), bytes.NewReader(bodyb))
 		if err != nil {
 			c.Emit("%s => BADREQ", in)
@@ -344,7 +358,12 @@ func runC12(c *Ctx) {
 				hstr = strings.Join(hs, ",")
 			}
 			c.Count("req." + method)
-			w.line(c, fmt.Sprintf("req %s %s %s %s", peer, hx([]byte(method)), hx([]byte(uri)), hstr))
+			if r.Chance(1, 5) {
+				w.line(c, fmt.Sprintf("req %s %s %s %s %s", peer, hx([]byte(method)), hx([]byte(uri)), hstr, gen.Pick(r, []string{"short", "magic", "stranger", "empty"})))
+				c.Count("req.bad-body")
+			} else {
+				w.line(c, fmt.Sprintf("req %s %s %s %s", peer, hx([]byte(method)), hx([]byte(uri)), hstr))
+			}
 		}
 	}
 }
